@@ -7,7 +7,7 @@
 (*   deepcopy  C14: faithful, leaves the original unchanged                  *)
 (*   mutate    C14: copy and original are independent                        *)
 (***************************************************************************)
-EXTENDS Document, Element, Report, IOUtils
+EXTENDS Document, Element, SchemaDerived, Report, IOUtils
 
 Trace == ndJsonDeserialize(IOEnv.TRACE_FILE)
 
@@ -38,9 +38,32 @@ NoLoss(x, y) ==
   /\ \A i \in DOMAIN x.c : AllWS(x.c[i].z) \/ \E j \in DOMAIN y.c : y.c[j].z = x.c[i].z
   /\ MatchKids(x.c, y.c)
 
-TripClauses(e) ==
-  LET ante == [C08_reparse |-> TRUE, C08_trip |-> e.res2.ok, C08_stable |-> e.res2.ok, C19_quiet |-> TRUE]
+\* C01 on whole documents: in what a checked tree serialises to, the child sequence of EVERY element is a word of its
+\* content model (elements without element content have no children)
+ChildNames(x) == [i \in DOMAIN x.c |-> x.c[i].n]
+RECURSIVE ValidTree(_)
+ValidTree(x) ==
+  /\ (IF Known(x.n) /\ IsComplex(x.n) /\ ElemType[x.n] \in CMTypes THEN Accepts(CM[ElemType[x.n]], ChildNames(x)) ELSE x.c = <<>>)
+  /\ \A i \in DOMAIN x.c : ValidTree(x.c[i])
+
+\* C18 on mixed trees (recorded by the 'mixed' scenarios):
+\*   unchecked-root: an xsd_check=False root holding a checked, INCOMPLETE child and a child the schema does not allow:
+\*       the root serialises (rootok) with its children in insertion order; the checked child still refuses its own
+\*       to_string (ownok = FALSE) and still rejects an invalid child (addok = FALSE)
+\*   unchecked-inner: a checked, complete root holding an unchecked child that carries arbitrary children:
+\*       the root serialises; the unchecked child is exempt and accepts anything (addok = TRUE)
+MixedClauses(e) ==
+  LET ante == [C18_local |-> TRUE, C19_quiet |-> TRUE]
   IN [ante |-> ante, holds |-> [
+   C18_local |-> IF e.variant = "unchecked-root"
+                 THEN e.rootok /\ ~e.ownok /\ ~e.addok /\ e.outw = e.insw
+                 ELSE e.rootok /\ e.addok /\ e.outw = e.insw,
+   C19_quiet |-> Quiet(e.res) ]]
+
+TripClauses(e) ==
+  LET ante == [C01_nested |-> TRUE, C08_reparse |-> TRUE, C08_trip |-> e.res2.ok, C08_stable |-> e.res2.ok, C19_quiet |-> TRUE]
+  IN [ante |-> ante, holds |-> [
+   C01_nested  |-> ValidTree(e.inp),                               \* every element of the emitted document is schema-valid
    C08_reparse |-> e.res2.ok,                                     \* what the library emitted is read back
    C08_trip    |-> ante.C08_trip => Equiv(e.inp, e.outp),          \* same elements, order, attributes, text (decimal spelling aside)
    C08_stable  |-> ante.C08_stable => (e.res3.ok /\ e.same23),     \* the second round trip is byte-identical
@@ -81,10 +104,10 @@ NestedClauses(e) ==
    C16_subtree |-> ante.C16_subtree => (Len(e.inside) = Len(e.alone) /\ \A i \in DOMAIN e.inside : SameSubtree(e.inside[i], e.alone[i])),
    C19_quiet   |-> Quiet(e.res) ]]
 
-StepClauses(e) == CASE e.op = "nested" -> NestedClauses(e) [] e.op = "trip" -> TripClauses(e) [] e.op = "parse" -> ParseClauses(e)
+StepClauses(e) == CASE e.op = "nested" -> NestedClauses(e) [] e.op = "mixed" -> MixedClauses(e) [] e.op = "trip" -> TripClauses(e) [] e.op = "parse" -> ParseClauses(e)
                     [] e.op = "deepcopy" -> CopyClauses(e) [] e.op = "mutate" -> MutateClauses(e)
 
-AllClauses == {"C08_reparse", "C08_trip", "C08_stable", "C09_accept", "C09_trip", "C09_noloss", "C14_copies", "C14_faithful",
+AllClauses == {"C01_nested", "C18_local", "C08_reparse", "C08_trip", "C08_stable", "C09_accept", "C09_trip", "C09_noloss", "C14_copies", "C14_faithful",
                "C14_unchanged", "C14_frame", "C16_subtree", "C19_class", "C19_quiet"}
 VARIABLES i, cnt
 Init == i = 1 /\ cnt = [n \in AllClauses |-> 0]
